@@ -310,6 +310,7 @@ impl World {
         let b = op.get("b").cloned().ok_or("par: field 'b' missing")?;
         let order: Vec<u8> = gs(op, "order")?.bytes().map(|c| if c == b'A' { 0 } else { 1 }).collect();
         let gate = crate::simrng::Gate::new(&order);
+        let (a_for_stats, b_for_stats) = (a.clone(), b.clone());
         // stateful objects go with the caller that names them (a caller's op may name several); the
         // two callers must not name the same object: one object is one caller's
         fn names(v: &Value, out: &mut std::collections::BTreeSet<String>) {
@@ -445,6 +446,10 @@ impl World {
             self.observed.extend(added);
         }
         self.bump("history.concurrent-callers");
+        // measure of reach: distinct (pair of operations, interleaving that took place)
+        let opn = |v: &Value| v.get("op").and_then(|o| o.as_str()).unwrap_or("").to_string();
+        let il = fnv(&[opn(&a_for_stats).as_bytes(), opn(&b_for_stats).as_bytes(), &gate.trace()]);
+        self.cases.entry("interleavings".into()).or_default().insert(il);
         self.bump_by("probe.par.thread-switches", gate.switches() as u64);
         self.bump_by("probe.par.forced-handover", gate.forced() as u64);
         Ok(json!({"a": ra, "b": rb, "switches": gate.switches()}))
